@@ -37,20 +37,37 @@ MAY_RAISE = {
     # urllib.parse: an unbalanced '[' / ']' in the network location ("//[") is rejected with ValueError("Invalid IPv6 URL")
     "urlparse": ("ValueError",),
     "urlsplit": ("ValueError",),
+    # conversions and parsers of the standard library that reject some texts / numbers (none is applied to a document value on the
+    # pinned tree; listed so that one that is introduced later is judged like the ones above)
+    "fromisoformat": ("ValueError",), "strptime": ("ValueError",), "fromtimestamp": ("ValueError", "OverflowError", "OSError"),
+    "Decimal": ("InvalidOperation",), "Fraction": ("ValueError", "ZeroDivisionError"), "complex": ("ValueError",),
+    "literal_eval": ("ValueError", "SyntaxError"), "b64decode": ("BinasciiError",), "unhexlify": ("BinasciiError",),
+    "fromhex": ("ValueError",), "chr": ("ValueError", "OverflowError"), "round": ("ValueError", "OverflowError"),
+    "ip_address": ("ValueError",), "ip_network": ("ValueError",), "shlex.split": ("ValueError",),
+    "unicodedata.lookup": ("KeyError",), "math.floor": ("ValueError", "OverflowError"), "math.ceil": ("ValueError", "OverflowError"),
+    "math.trunc": ("ValueError", "OverflowError"), "math.log": ("ValueError",), "math.sqrt": ("ValueError",),
+    "re.compile": ("ReError",), "re.sub": ("ReError",), "re.match": ("ReError",), "re.search": ("ReError",),
+    "re.fullmatch": ("ReError",), "re.findall": ("ReError",), "re.split": ("ReError",), "re.finditer": ("ReError",),
+    "format_map": ("KeyError", "IndexError", "ValueError"),
+    "import_module": ("ImportError",),
 }
+# table entries whose raising operand is the receiver of the method call rather than its first argument
+RECEIVER_OPERAND = ("decode", "format_map")
 # how external exception classes relate to builtin ones (for handler matching)
 EXT_BASES = {
     "ValidationError": "ValueError", "JSONDecodeError": "ValueError", "YAMLError": "Exception", "PydanticSerializationError": "ValueError",
+    "InvalidOperation": "ArithmeticError", "BinasciiError": "ValueError", "ReError": "Exception",
     "CalledProcessError": "Exception", "HTTPError": "Exception", "NetworkError": "Exception", "Exit": "Exception",
     "BadParameter": "Exception",
 }
+HANDLER_ALIASES = {"re.error": "ReError", "re.PatternError": "ReError", "binascii.Error": "BinasciiError"}
 PYDANTIC_WRAPS = ("ValueError", "AssertionError")
 
 
 def is_sub(exc: str, handler: str) -> bool:
     """exc is caught by `except handler`"""
     e = exc.rsplit(".", 1)[-1]
-    h = handler.rsplit(".", 1)[-1]
+    h = HANDLER_ALIASES.get(handler, handler.rsplit(".", 1)[-1])
     seen = set()
     while e and e not in seen:
         if e == h:
@@ -213,8 +230,8 @@ def run(rep: Report, ctx: Any) -> str:
                 continue
             suf, excs = entry
             operand = n.args[0] if n.args else (n.func.value if isinstance(n.func, ast.Attribute) else None)
-            if suf in ("decode", "index", "load") and isinstance(n.func, ast.Attribute):
-                operand = n.func.value if suf == "decode" else (n.args[0] if n.args else n.func.value)
+            if suf in ("decode", "index", "load", "format_map") and isinstance(n.func, ast.Attribute):
+                operand = n.func.value if suf in RECEIVER_OPERAND else (n.args[0] if n.args else n.func.value)
             av = it.node_av.get(id(operand)) if operand is not None else None
             derived = av is not None and bool(av.labels & {RAW, RAW_NONSTR, UNKNOWN})
             if suf == "load" and "yaml" not in cn.lower():
